@@ -30,8 +30,10 @@ HERE = os.path.dirname(os.path.dirname(os.path.abspath(__file__)))
 if __name__ == "__main__":
     sys.path.insert(0, HERE)
     from vlib.gen import sentence, render, mutate, noise, GRAMMAR  # noqa: E402,F401
+    from vlib import msgmap  # noqa: E402
 else:
     from .gen import sentence, render, mutate, noise, GRAMMAR  # noqa: E402,F401
+    from . import msgmap  # noqa: E402
 
 ORACLE = os.path.join(HERE, ".build", "cargo", "release", "tgverif")
 MODEL = os.path.join(HERE, "lean", ".lake", "build", "bin", "tgdrive")
@@ -159,6 +161,8 @@ def normalise(q, ans):
         if name == "completion" and isinstance(ans, list):
             return sorted(ans, key=lambda x: json.dumps(x))
         if name == "diagnostics" and isinstance(ans, list):
+            # reworded syntax-error messages are mapped back to the wording the model carries (see msgmap)
+            ans = msgmap.canon_deep(ans)
             return [[f, sorted(ds, key=lambda x: json.dumps(x))] for f, ds in ans]
     except Exception:
         pass
